@@ -161,8 +161,12 @@ def syntactic_dispatches(src, marker, families, lazy, what, after=None):
             found[fam] = dx.canonical_arms({r: (None if v is None else v[1]) for r, v in f.items()})
         except GenError as e:
             why.append("let %s: %s" % (name, e))
+    if why:
+        # a dispatching `let` that could not be read, or a second one for a family: which of them decides is not known
+        # here, so NO family counts as read (the callers probe the implementation for all of them)
+        return {}, why
     for fam in families:
-        if fam not in found and not why:
+        if fam not in found:
             why.append("no `let .. = match/if` on run_number selecting a %s table" % fam)
     return found, why
 
@@ -173,7 +177,10 @@ def settle(what, src, families, found, why, helper_ok, helper, answers_of, predi
     missing = [f for f in families if f not in found]
     if not missing and helper_ok:
         return found
-    runs = dx.candidate_runs(src)
+    runs = set(dx.candidate_runs(src))
+    for b in scan_boundaries():
+        runs.update((b - 1, b, b + 1))
+    runs = sorted(runs)
     answers = answers_of(runs)
     cache = {}
 
@@ -283,6 +290,22 @@ def pad_obs(boards, env, cols, inv_pads):
 
 
 _PROBE = {}
+_SCAN = {}
+
+
+def scan_boundaries(upto=20000):
+    """the runs in 1..=upto at which the implementation's maps (complete wire table, one pad per board) change"""
+    import vlib
+    if upto not in _SCAN:
+        exe, out = vlib.build_harness("det")
+        if exe is None:
+            raise GenError("det harness does not build against /repo: " + out[-600:])
+        rc, out = vlib.sh([exe, "obs"], stdin=("runscan %d\n" % upto).encode(), timeout=900)
+        line = out.split("\n")[0]
+        if rc != 0 or not line.startswith("boundaries"):
+            raise GenError("probing the implementation (`runscan`) failed: %r" % out[:300])
+        _SCAN[upto] = [int(x) for x in line.split()[1:]]
+    return _SCAN[upto]
 
 
 def probe(runs):
@@ -307,7 +330,7 @@ def probe(runs):
 
 PROBE_NOTE = ("%s\n(* %s: the front end could not read the dispatch (%s).\n"
               "   The implementation was evaluated at %d candidate run numbers (every integer literal and integer constant of\n"
-              "   the source file, each +-1, and 0, 1, u32::MAX-1, u32::MAX); at each one the parsed table whose COMPLETE content\n"
+              "   the source file, each +-1, 0, 1, u32::MAX-1, u32::MAX, and every run in 1..=20000 where a scan finds a change); at each one the parsed table whose COMPLETE content\n"
               "   reproduces the implementation's answer was identified.  ASSUMPTION: the dispatch is constant between\n"
               "   consecutive candidates with the same answer (a change between two candidates is located by bisection); the\n"
               "   differential run (arm boundaries +-2 and a stride of runs) checks it.\n"
